@@ -18,7 +18,7 @@
      same_but_untyped_type c' c    c' = c in every attribute, the type attribute being required only when c is typed. *)
 From Coq Require Import List NArith ZArith Bool.
 From Coq Require Import String.
-From Orso Require Import Base.C16_Defs Gen.C16_Fields Model.C16 Proofs.C16.
+From Orso Require Import Base.C16_Defs Gen.C16_Fields Model.C16 Proofs.C16 Proofs.C16_Lookup.
 From Orso Require Gen.C06_Types Model.C05.
 Import ListNotations.
 
@@ -445,3 +445,77 @@ Example C16_nonvacuous_two_paths :
     Ok (PA (AInt decimal_default_precision), PA (AInt 21), PL [AText ty_decimal; AInt decimal_default_precision; AInt 21]) /\
   bind (init PR class_flat [] (kw_of "VARCHAR[3]" [])) (fun c => Ok (c_default c)) = Ok (T "1.1").
 Proof. repeat split; vm_compute; reflexivity. Qed.
+
+(* ---------------- round 7: looking columns up by name on a schema that has been in use and edited ---------------- *)
+(* RelationSchema.find_column(name) - the path of RelationSchema.column(name) and of every DataFrame.description - is
+   [find_col]: the position of the FIRST column of the columns list AS IT IS NOW one of whose names (aliases + name) is
+   the text asked for.  A lookup ([SFind]) is an observation; the correspondence evaluates it at every such step of a
+   session on the current state and on the schema restored from it. *)
+Theorem C16_lookup_does_not_change_the_objects :
+  forall (st : sstate) (name : str) (live rest : result (option nat)), step st (SFind name live rest) = Some st.
+Proof. exact lookup_keeps_state. Qed.
+Print Assumptions C16_lookup_does_not_change_the_objects.
+
+(* what a lookup returns: the first listed column that answers to the name, none if no column does *)
+Theorem C16_lookup_returns_the_first_column_answering_to_the_name :
+  forall (name : str) (s : schema),
+  (forall k, find_col s name = Ok (Some k) ->
+     (k < List.length (s_columns s))%nat /\ answers_to name (nth k (s_columns s) dummy_column) = Ok true /\
+     forall j, (j < k)%nat -> answers_to name (nth j (s_columns s) dummy_column) = Ok false) /\
+  (find_col s name = Ok None -> Forall (fun c => answers_to name c = Ok false) (s_columns s)).
+Proof.
+  intros name s. split.
+  - intros k H. destruct (find_pos_some name (s_columns s) 0 k H) as [j [H1 [H2 [H3 H4]]]]. cbn in H1. subst k. repeat split; assumption.
+  - exact (find_pos_none name (s_columns s) 0).
+Qed.
+Print Assumptions C16_lookup_returns_the_first_column_answering_to_the_name.
+
+(* ... it reads the names and aliases of the columns as listed now and nothing else (two schemas that agree on those
+   answer every lookup alike - whatever lookups were made before, there is nothing else to answer from) *)
+Theorem C16_lookup_reads_current_names_and_aliases_only :
+  forall (name : str) (s s' : schema),
+  map c_name (s_columns s) = map c_name (s_columns s') -> map c_aliases (s_columns s) = map c_aliases (s_columns s') ->
+  find_col s name = find_col s' name.
+Proof. intros name s s' H1 H2. exact (find_pos_names_only name (s_columns s) (s_columns s') 0 H1 H2). Qed.
+Print Assumptions C16_lookup_reads_current_names_and_aliases_only.
+
+(* schema.columns[i] = obj_o (a column redefined in place): position i of the columns list now shows object o, every
+   other position is as before, the number of columns is unchanged *)
+Theorem C16_redefining_a_column_in_place_shows_at_that_position :
+  forall (h : list column) (refs : list nat) (top : schema) (i o : nat) (st' : sstate),
+  step (h, refs, top) (SListSet i o) = Some st' ->
+  (i < List.length (s_columns (view (h, refs, top))))%nat /\
+  s_columns (view st') = upd i (fun _ => nth o h dummy_column) (s_columns (view (h, refs, top))).
+Proof. exact list_set_view. Qed.
+Print Assumptions C16_redefining_a_column_in_place_shows_at_that_position.
+
+(* The restored schema behaves identically under lookups: after ANY sequence of operations (lookups, aliases appended,
+   columns renamed, redefined in place, the list shrunk and grown), the schema restored now finds - for every name -
+   the column at the same position as the schema as it is now. *)
+Theorem C16_restored_schema_finds_the_same_columns :
+  forall (parse : str -> params -> pv -> result pv) (fresh : nat -> str) (st : sstate) (ops : list sop) (st' : sstate),
+  exec st ops = Some st' ->
+  Forall (persistable parse) (s_columns (view st')) -> plain_top (view st') ->
+  exists s', from_dict parse fresh (to_dict (view st')) = Ok s' /\
+             forall name, find_col s' name = find_col (view st') name.
+Proof. exact session_restored_finds_same. Qed.
+Print Assumptions C16_restored_schema_finds_the_same_columns.
+
+(* Round 7 non-vacuity: [id_left (VARCHAR); id_right (INTEGER)], both named "id": looked up, then the first renamed,
+   given the alias "key", and position 1 redefined as object 0 as well - every lookup follows the current definitions,
+   and the restored schema answers the same. *)
+Example C16_nonvacuous_lookup_session :
+  let st0 : sstate := ([id_left; id_right], [0; 1]%nat, mkschema (T "j") (PL []) [] (T "id") PNone PNone PNone PNone) in
+  let ops := [SFind (txt "id") (Ok (Some 0%nat)) (Ok (Some 0%nat)); SColSet 0 FName (T "l_id"); SColAppend 0 FAliases (AText (txt "key"))] in
+  find_col (view st0) (txt "id") = Ok (Some 0%nat) /\ find_col (view st0) (txt "key") = Ok None /\
+  exists st' st'', exec st0 ops = Some st' /\ step st' (SListSet 1 0) = Some st'' /\
+    find_col (view st') (txt "id") = Ok (Some 1%nat) /\ find_col (view st') (txt "l_id") = Ok (Some 0%nat) /\
+    find_col (view st') (txt "key") = Ok (Some 0%nat) /\
+    find_col (view st'') (txt "id") = Ok None /\ find_col (view st'') (txt "key") = Ok (Some 0%nat) /\
+    bind (from_dict P0 (fun _ => []) (to_dict (view st''))) (fun r => find_col r (txt "key")) = Ok (Some 0%nat) /\
+    bind (from_dict P0 (fun _ => []) (to_dict (view st'))) (fun r => find_col r (txt "id")) = Ok (Some 1%nat).
+Proof.
+  split; [vm_compute; reflexivity|]. split; [vm_compute; reflexivity|].
+  eexists. eexists. split; [vm_compute; reflexivity|]. split; [vm_compute; reflexivity|].
+  repeat split; vm_compute; reflexivity.
+Qed.
